@@ -52,6 +52,16 @@ lemma('kput_all_gt', [Part(ks, [s, s2, a], Implies(And(J.all_gt(s2, ks), str_lt(
       props=P18, uses=['STR_ORDER'])
 lemma('kput_sorted', [Part(ks, [s, a], Implies(J.ksorted(ks), J.ksorted(J.kput(s, a, ks))))],
       props=P18, uses=['STR_ORDER', 'all_gt_trans', 'kput_all_gt'])
+lemma('ksorted_nil', [Part(ks, [], Implies(KVs.is_knil(ks), J.ksorted(ks)))], props=P18 + ['C16'])
+lemma('kmem_nil', [Part(ks, [k], Implies(KVs.is_knil(ks), Not(J.kmem(k, ks))))], props=P18 + ['C16'])
+lemma('kmem_kput', [Part(ks, [s, a, k], Implies(J.ksorted(ks), J.kmem(k, J.kput(s, a, ks))
+                                                == Or(k == PyV.PStr(s), J.kmem(k, ks))),
+                         patterns=[J.kmem(k, J.kput(s, a, ks))])],
+      props=P18 + ['C16'], uses=['STR_ORDER'])
+lemma('klookup_kput', [Part(ks, [s, a, k], Implies(J.ksorted(ks), J.klookup(k, J.kput(s, a, ks))
+                                                   == If(k == PyV.PStr(s), a, J.klookup(k, ks))),
+                            patterns=[J.klookup(k, J.kput(s, a, ks))])],
+      props=P18 + ['C16'], uses=['STR_ORDER'])
 lemma('kput_sanitized', [Part(ks, [s, a], Implies(And(J.sanitized_k(ks), J.sanitized(a)),
                                                   J.sanitized_k(J.kput(s, a, ks))))], props=P18)
 lemma('lookup_sanitized', [Part(ks, [k], Implies(And(J.sanitized_k(ks), J.kmem(k, ks)),
